@@ -63,6 +63,17 @@ def seqEvent (op : List String) (obs : List String) : Option SeqEv :=
   | some "probe", [f] => (kv? [f] "free").bind (·.toNat?) |>.map .free
   | _, _ => none
 
+/-- the monitor events of one line (a Return that wakes a parked borrower is a return AND a grant). -/
+def seqEvents (op : List String) (obs : List String) : Option (List SeqEv) :=
+  match op, obs with
+  | ["bwait"], ["ok"] => some [.grant]
+  | ["bwait"], ["waiting"] => some [.refuse]
+  | ["return"], ["ok", "woke=1"] => some [.retOk, .grant]
+  | ["return"], ["ok", "woke=0"] => some [.retOk]
+  | ["return"], ["ok", "woke=lost"] => some [.retOk]
+  | ["return"], ["ok", "woke=timeout"] => some [.retOk, .refuse]
+  | _, _ => (seqEvent op obs).map fun e => [e]
+
 /-! ### sequential replay through the site PROGRAMS (the tables the theorems are about) -/
 
 inductive Stop where
@@ -127,17 +138,36 @@ structure IRSeq where
   st      : St
   next    : Tid            -- next fresh model thread
   holders : List Tid       -- threads inside the guarded function, oldest first
+  waiters : List Tid := [] -- TimeoutLimit: threads parked in `cond.WaitWithTimeout` (row 2), oldest first
 
 /-- expected observation of one sequential operation according to the site program. -/
 def IRSeq.op (kind : String) (m : IRSeq) (op : List String) : Option (IRSeq × String) :=
   match op with
   | ["probe"] => some (m, s!"free={m.st.cap - m.st.used}")
+  | ["bwait"] =>
+    -- the first `l.TryBorrow()` of Borrow (row 0): admitted → runs on into the guarded function;
+    -- full → the thread stands at the `WaitWithTimeout` row until a Return signals it
+    let t := m.next
+    match step m.prog m.st t false with
+    | none => some (m, "model-first-try-blocked")
+    | some s1 =>
+      if s1.pc t = 2 then some ({ m with st := s1, next := t + 1, waiters := m.waiters ++ [t] }, "waiting")
+      else
+        let (s2, stop) := runThread m.prog 64 s1 t []
+        some ({ m with st := s2, next := t + 1, holders := m.holders ++ [t] }, if stop = .user then "ok" else "model-thread-not-admitted")
   | ["return"] | ["finish"] | ["finish", "panic"] =>
     match m.holders with
     | [] => some (m, if op.head? = some "return" then "err" else "none")
     | t :: rest =>
       let (s', stop) := finishThread m.prog m.st t (op = ["finish", "panic"])
-      some ({ m with st := s', holders := rest }, if stop = .halt then "ok" else "model-thread-did-not-finish")
+      match m.waiters with
+      | [] => some ({ m with st := s', holders := rest }, if stop = .halt then "ok" else "model-thread-did-not-finish")
+      | w :: ws =>
+        -- the Signal of the returning thread is received by the oldest parked one: choice `true` at the
+        -- WaitWithTimeout row (signalled), then `ok && l.TryBorrow()` finds the permit just returned
+        let (s2, stop2) := runThread m.prog 64 s' w [true]
+        some ({ m with st := s2, holders := rest ++ [w], waiters := ws },
+              if stop = .halt ∧ stop2 = .user then "ok woke=1" else "model-handover-failed")
   | [o] =>
     match entryChoices kind o with
     | none => none
@@ -161,6 +191,7 @@ def IRSeq.op (kind : String) (m : IRSeq) (op : List String) : Option (IRSeq × S
   | _ => none
 def runSeq (r : Report) (s : Section) (kind : String) (n : Nat) : Report := Id.run do
   let mut sem := Sem.init n
+  let mut waiters := 0       -- TimeoutLimit: Borrow calls parked in cond.WaitWithTimeout
   let mut mon : SeqMon := { cap := n, held := 0 }
   let mut ir : Option IRSeq := (siteProgram kind).map fun p => { prog := p, st := St.init n, next := 0, holders := [] }
   let mut r := r
@@ -170,11 +201,22 @@ def runSeq (r : Report) (s : Section) (kind : String) (n : Nat) : Report := Id.r
     if impl = "leaked" ∨ impl = "stuck" then
       -- the harness gave up waiting: the permit of an ended holder never came back / a blocked call never resumed
       r := r.violation s.idx l.idx s!"kind={kind} op=[{joinSp l.op}] impl=[{impl}] capacity leaked: the permit of an ended holder was not released"
-    match seqExpected kind sem l.op with
+    -- TimeoutLimit with parked borrowers (explicit Cond model, ModelTL): `bwait` = Borrow with a long timeout
+    let expected : Option (Sem × String × String) :=
+      if kind = "tlimit" ∧ l.op = ["bwait"] then
+        let q := sem.step .tryBorrow
+        if q.2 = .ok then some (q.1, "ok", "bwait-admitted") else some (sem, "waiting", "bwait-parks")
+      else if kind = "tlimit" ∧ l.op = ["return"] ∧ waiters > 0 ∧ sem.used > 0 then
+        -- Return frees one permit, its Signal reaches one parked borrower, whose retry takes the permit
+        some (sem, "ok woke=1", "return-wakes-parked-borrower")
+      else seqExpected kind sem l.op
+    match expected with
     | none => r := r.mismatch s.idx l.idx "bad-op" (joinSp l.op)
     | some (sem', exp, br) =>
       r := r.addCover s!"{kind}-{br}"
       if exp ≠ impl then r := r.mismatch s.idx l.idx exp impl
+      if br = "bwait-parks" then waiters := waiters + 1
+      if br = "return-wakes-parked-borrower" then waiters := waiters - 1
       sem := sem'
     -- the same operation through the site program (the table the interleaving theorems are about)
     match ir with
@@ -187,13 +229,17 @@ def runSeq (r : Report) (s : Section) (kind : String) (n : Nat) : Report := Id.r
         if m'.st.used ≠ sem.used then r := r.mismatch s.idx l.idx s!"site-program used={m'.st.used}" s!"sem used={sem.used}"
         r := r.addCover s!"{kind}-site-program-ops"
         ir := some m'
-    match seqEvent l.op l.obs with
+    match seqEvents l.op l.obs with
     | none => r := r.mismatch s.idx l.idx "parsable-observation" impl
-    | some ev =>
-      match mon.check ev with
-      | some msg => r := r.violation s.idx l.idx s!"kind={kind} op=[{joinSp l.op}] impl=[{impl}] {msg}"
-      | none => pure ()
-      mon := mon.step ev
+    | some evs =>
+      for ev in evs do
+        match mon.check ev with
+        | some msg => r := r.violation s.idx l.idx s!"kind={kind} op=[{joinSp l.op}] impl=[{impl}] {msg}"
+        | none => pure ()
+        mon := mon.step ev
+      -- a Return that succeeded while borrowers are parked has to hand the permit on
+      if l.op = ["return"] ∧ waiters > 0 ∧ (l.obs = ["ok", "woke=0"] ∨ l.obs = ["ok", "woke=lost"] ∨ l.obs = ["ok"]) then
+        r := r.violation s.idx l.idx s!"kind={kind} Return woke none of the {waiters} parked borrowers: a permit is free while requests stay blocked (lost wake-up)"
   return r
 
 /-! ### concurrent semaphore sections -/
@@ -221,10 +267,15 @@ def runHistory (r : Report) (sec line : Nat) (kind : String) (n : Nat) (obs : Li
   let mut bad := false
   for tok in obs do
     if bad then break
+    if (kv? [tok] "early").isSome then
+      r := r.violation sec line s!"kind={kind} Wait/Start returned while {(kv? [tok] "early").getD "?"} holders were still inside the guarded function"
+      bad := true
+      break
     match kv? [tok] "free", kv? [tok] "gauge" with
     | some v, _ =>
-      -- mr / fx: the limiting channel is a local variable of the library function, nothing to measure afterwards
-      if v = "unobservable" ∧ (kind = "mr" ∨ kind = "fx") then freeSkip := true
+      -- mr / fx / WorkerGroup: the limiting channel is a local variable of the library function (or there is
+      -- none), nothing to measure afterwards
+      if v = "unobservable" ∧ (kind = "mr" ∨ kind = "fx" ∨ kind = "wgroup") then freeSkip := true
       else
         match v.toNat? with
         | some k => free := some k
@@ -280,6 +331,8 @@ def runHistory (r : Report) (sec line : Nat) (kind : String) (n : Nat) (obs : Li
       | .ok => pure ()
       | .malformed msg => r := r.mismatch sec line "quiescent end" msg
       | .violation msg => r := r.violation sec line s!"kind={kind} {msg}"
+  if kind = "wgroup" ∧ !bad ∧ enters ≠ n then
+    r := r.violation sec line s!"kind=wgroup {enters} jobs were started, workers={n}"
   r := r.addCover s!"{kind}-conc-enters" enters
   if panics > 0 then r := r.addCover s!"{kind}-conc-panic-exits" panics
   if refusals > 0 then r := r.addCover s!"{kind}-conc-refusals" refusals
@@ -536,7 +589,7 @@ def runPoolConc (r : Report) (s : Section) (limit : Nat) : Report := Id.run do
     | _ => r := r.mismatch s.idx l.idx "bad-op" (joinSp l.op)
   return r
 
-def semKinds : List String := ["limit", "tlimit", "runner", "maxconns", "mr", "fx"]
+def semKinds : List String := ["limit", "tlimit", "runner", "maxconns", "mr", "fx", "wgroup"]
 
 def runSection (r : Report) (s : Section) : Report :=
   let kind := kvStr s.cfg "kind"
@@ -550,6 +603,12 @@ def runSection (r : Report) (s : Section) : Report :=
       else if mode = "conc" then runPoolConc r s n
       else r.mismatch s.idx 0 "mode" mode
     else if semKinds.contains kind then
+      -- mr / fx with `req=<k>`: WithWorkers(k) was called; the capacity has to be what the decision table says
+      let r := match (kv? s.cfg "req").bind (·.toInt?) with
+        | some k =>
+          let r := r.addCover (if k < 1 then s!"{kind}-withworkers-floored-to-min" else s!"{kind}-withworkers-as-given")
+          if effWorkers k = (n : Int) then r else r.mismatch s.idx 0 s!"n={effWorkers k} for WithWorkers({k})" s!"n={n}"
+        | none => r
       if mode = "seq" then runSeq r s kind n
       else if mode = "conc" then runConc r s kind n
       else r.mismatch s.idx 0 "mode" mode
